@@ -154,6 +154,35 @@ def run(prop, seed, budget, ctx):
                 reqs.append({"id": len(reqs), "op": "refs", "all_refs": all_refs, "root": tyg(root),
                              "env": [[c, ["node", [tyg(t) for t in classes[c]]]] for c in names]})
                 meta.append((case, why))
+    # part 1b: every version x all_refs in {default, False, True}: an explicit all_refs overrides the default of the version
+    # (drafts: False, OpenAPI: True); the definitions are exactly those of the rule and close every $ref
+    rndv = random.Random(seed * 3 + 2)
+    for names, classes, root in graphs:
+        if rndv.random() > 0.25: continue
+        tp = eval(py(root), ns)
+        for ver in ("DRAFT_2020_12", "DRAFT_2019_09", "DRAFT_7", "OPEN_API_3_0", "OPEN_API_3_1"):
+            V = getattr(JsonSchemaVersion, ver)
+            for all_refs in (None, False, True):
+                evaluations += 1; hist["version-sweep:" + ver] += 1
+                eff = {"DRAFT_2020_12": False, "DRAFT_2019_09": False, "DRAFT_7": False, "OPEN_API_3_0": True, "OPEN_API_3_1": True}[ver] if all_refs is None else all_refs
+                case = {"src": src_of(names, classes), "root": py(root), "all_refs": all_refs, "version": ver, "view": "deser",
+                        "graph": {c: [py(t) for t in classes[c]] for c in names}, "k_ok": None}
+                why = []
+                try:
+                    s = observe(tp, all_refs, "deser", version=V)
+                    ds = dict(definitions_schema(deserialization=[tp], version=V, all_refs=all_refs))
+                except RecursionError: why.append("schema-generation-does-not-terminate"); s = ds = None
+                except Exception as e: why.append("schema-generation-raises:" + type(e).__name__); s = ds = None
+                if s is not None:
+                    want = spec_defs(names, classes, root, eff)
+                    if sorted(ds) != want: why.append("extracted-definitions-differ-from-the-rule"); case["expected_defs"] = want; case["got_defs"] = sorted(ds)
+                    inline = s.get("$defs", s.get("definitions"))
+                    if V.defs and dict(inline or {}) != ds: why.append("definitions_schema-differs-from-inline-$defs")
+                    if not V.defs and inline: why.append("inline-definitions-in-a-version-without-them")
+                    dangling = [x for x in refs_in(s) + [y for v in ds.values() for y in refs_in(v)] if x not in ds]
+                    if dangling: why.append("dangling-$ref:" + ",".join(sorted(set(dangling))))
+                    if len(names) > 1: distinct.add(case_hash(case["graph"], case["root"], all_refs, ver))
+                if why: case.update(kind="P", why=why); failures.append(case)
     ms = model(reqs) if ctx["driver_ok"] else [None] * len(reqs)
     kbad = 0
     for (case, why), m in zip(meta, ms):
@@ -272,6 +301,14 @@ def is_known(kid, case):
 
 def replay(prop, case, ctx):
     from apischema.json_schema import deserialization_schema, serialization_schema, JsonSchemaVersion
+    if "graph" in case and case.get("version"):
+        from apischema.json_schema import definitions_schema
+        mod = build_module(HEADER + case["src"], "refsreplay"); tp = eval(case["root"], dict(vars(mod)))
+        V = getattr(JsonSchemaVersion, case["version"])
+        s = observe(tp, case["all_refs"], "deser", version=V); ds = dict(definitions_schema(deserialization=[tp], version=V, all_refs=case["all_refs"]))
+        dangling = [x for x in refs_in(s) + [y for v in ds.values() for y in refs_in(v)] if x not in ds]
+        return {"schema": s, "definitions": sorted(ds), "dangling": dangling, "expected_defs": case.get("expected_defs"),
+                "fails": bool(dangling) or ("expected_defs" in case and sorted(ds) != case["expected_defs"])}
     if "graph" in case:
         mod = build_module(HEADER + case["src"], "refsreplay"); tp = eval(case["root"], dict(vars(mod)))
         try: s = observe(tp, case["all_refs"], case["view"])
